@@ -364,8 +364,10 @@ namespace pika::threads::detail {
         for (std::size_t i = 0; i != threads_.size(); ++i)
         {
             pika::runtime_state expected = runtime_state::running;
+            PIKA_VERIF_PRE("el.ucas", static_cast<scheduler_base const*>(sched_.get()));
             sched_->Scheduler::get_state(i).compare_exchange_strong(
                 expected, runtime_state::pre_sleep);
+            PIKA_VERIF_POST("el.ucas", static_cast<scheduler_base const*>(sched_.get()), i, (static_cast<std::uint64_t>(static_cast<std::uint8_t>(expected)) << 8) | static_cast<std::uint64_t>(static_cast<std::uint8_t>(sched_->Scheduler::get_state(i).load())));
         }
 
         for (std::size_t i = 0; i != threads_.size(); ++i)
@@ -379,6 +381,7 @@ namespace pika::threads::detail {
     {
         if (threads::detail::get_self_ptr() && pika::this_thread::get_pool() == this)
         {
+            PIKA_VERIF_POST("el.refuse", static_cast<scheduler_base const*>(sched_.get()), 1, 0);
             PIKA_THROWS_IF(ec, pika::error::bad_parameter,
                 "scheduled_thread_pool<Scheduler>::suspend_direct",
                 "cannot suspend a pool from itself");
@@ -434,7 +437,9 @@ namespace pika::threads::detail {
 
         // set state to running
         std::atomic<pika::runtime_state>& state = sched_->Scheduler::get_state(thread_num);
+        PIKA_VERIF_PRE("el.start", static_cast<scheduler_base const*>(sched_.get()));
         [[maybe_unused]] pika::runtime_state oldstate = state.exchange(runtime_state::running);
+        PIKA_VERIF_POST("el.start", static_cast<scheduler_base const*>(sched_.get()), thread_num, static_cast<std::uint64_t>(static_cast<std::uint8_t>(oldstate)));
         PIKA_ASSERT(oldstate <= runtime_state::running);
 
         // wait for all threads to start up before before starting pika work
@@ -1377,9 +1382,11 @@ namespace pika::threads::detail {
 
         util::yield_while([&l]() { return !l.try_lock(); },
             "scheduled_thread_pool::suspend_processing_unit_internal");
+        PIKA_VERIF_POST("el.slock", static_cast<scheduler_base const*>(sched_.get()), virt_core, 0);
 
         if (threads_.size() <= virt_core || !threads_[virt_core].joinable())
         {
+            PIKA_VERIF_POST("el.sunl", static_cast<scheduler_base const*>(sched_.get()), virt_core, 1);
             l.unlock();
             PIKA_THROWS_IF(ec, pika::error::bad_parameter,
                 "scheduled_thread_pool<Scheduler>::suspend_processing_unit_internal",
@@ -1391,15 +1398,20 @@ namespace pika::threads::detail {
 
         // Inform the scheduler to suspend the virtual core only if running
         pika::runtime_state expected = runtime_state::running;
+        PIKA_VERIF_PRE("el.cas", static_cast<scheduler_base const*>(sched_.get()));
         state.compare_exchange_strong(expected, runtime_state::pre_sleep);
+        PIKA_VERIF_POST("el.cas", static_cast<scheduler_base const*>(sched_.get()), virt_core, (static_cast<std::uint64_t>(static_cast<std::uint8_t>(expected)) << 8) | static_cast<std::uint64_t>(static_cast<std::uint8_t>(state.load())));
+        PIKA_VERIF_POST("el.sunl", static_cast<scheduler_base const*>(sched_.get()), virt_core, 0);
 
         l.unlock();
 
         PIKA_ASSERT(expected == runtime_state::running || expected == runtime_state::pre_sleep ||
             expected == runtime_state::sleeping);
 
+        PIKA_VERIF_POINT("el.pt.swait", static_cast<scheduler_base const*>(sched_.get()), virt_core, 0);
         util::yield_while([&state]() { return state.load() == runtime_state::pre_sleep; },
             "scheduled_thread_pool::suspend_processing_unit_internal");
+        PIKA_VERIF_POST("el.sdone", static_cast<scheduler_base const*>(sched_.get()), virt_core, static_cast<std::uint64_t>(static_cast<std::uint8_t>(state.load())));
     }
 
     template <typename Scheduler>
@@ -1408,6 +1420,7 @@ namespace pika::threads::detail {
     {
         if (!get_scheduler()->has_scheduler_mode(scheduler_mode::enable_elasticity))
         {
+            PIKA_VERIF_POST("el.refuse", static_cast<scheduler_base const*>(sched_.get()), 2, 0);
             PIKA_THROWS_IF(ec, pika::error::invalid_status,
                 "scheduled_thread_pool<Scheduler>::suspend_processing_unit_direct",
                 "this thread pool does not support suspending processing units");
@@ -1417,6 +1430,7 @@ namespace pika::threads::detail {
             !get_scheduler()->has_scheduler_mode(scheduler_mode::enable_stealing) &&
             pika::this_thread::get_pool() == this)
         {
+            PIKA_VERIF_POST("el.refuse", static_cast<scheduler_base const*>(sched_.get()), 3, 0);
             PIKA_THROWS_IF(ec, pika::error::invalid_status,
                 "scheduled_thread_pool<Scheduler>::suspend_processing_unit_direct",
                 "this thread pool does not support suspending processing units from itself (no "
@@ -1453,6 +1467,7 @@ namespace pika::threads::detail {
         util::yield_while(
             [this, &state, virt_core]() {
                 this->sched_->Scheduler::resume(virt_core);
+                PIKA_VERIF_SCOPE("el.rload", static_cast<scheduler_base const*>(this->sched_.get()), (static_cast<std::uint64_t>(virt_core) << 8) | static_cast<std::uint64_t>(static_cast<std::uint8_t>(state.load())));
                 return state.load() == runtime_state::sleeping;
             },
             "scheduled_thread_pool::resume_processing_unit_direct");
